@@ -11,7 +11,7 @@ import (
 )
 
 var (
-	litPool    = []string{"a", "b", "ab", "users", "v1", "a.f", "x-y", "B"}
+	litPool    = []string{"a", "b", "ab", "users", "v1", "a.f", "x-y", "B", "a b", "caf\u00e9", "x,y", "a;b"}
 	rePool     = []string{"[0-9]+", "[a-z]+", "[a-z0-9]+", "[A-Z][A-Z]", "[0-9]{2}", "(cats|dogs)"}
 	sufPool    = []string{".f", ".txt", "-x"}
 	verbPool   = []string{":go", ":undo"}
@@ -111,7 +111,7 @@ func genPathToks(r *rand.Rand, n int, profile string, namePrefix string, allowEn
 func randomRoot(r *rand.Rand, profile string, i int) string {
 	switch profile {
 	case "common", "allow":
-		opts := []string{"/", "/a", "/a/b", "/b", "/ab", "/a/b/ab", "/users"}
+		opts := []string{"/", "/a", "/a/b", "/b", "/ab", "/a/b/ab", "/users", "/a b", "/x,y"}
 		return opts[r.Intn(len(opts))]
 	}
 	x := r.Intn(100)
@@ -246,6 +246,9 @@ func randomTable(r *rand.Rand, profile string, nreq int) tableCase {
 			hp := 70
 			if profile == "headers" {
 				hp = 20
+			}
+			if profile == "allow" && r.Intn(3) == 0 {
+				rs.Cons = subsetMimes(r, 0) // Consumes does not change which methods are routable
 			}
 			if profile != "allow" {
 				rs.Cons = subsetMimes(r, hp)
